@@ -106,7 +106,7 @@ def Face3.nextCcwPtId (f : Face3 K) (id : Nat) : Nat := if f.p0 = id then 1 else
 def Face3.canBeSeenBy (f : Face3 K) (vs : Array (CSOPoint3 K)) (point opp : Nat) : Option Bool :=
   match vs[f.pt opp]?, vs[f.pt ((opp + 1) % 3)]?, vs[f.pt ((opp + 2) % 3)]?, vs[point]? with
   | some q0, some q1, some q2, some pt =>
-    some (decide (-gjkEpsTol ≤ (pt.point.sub q0.point).dot f.normal) || triAffinelyDependent q1.point q2.point pt.point)
+    some (decide (-epaGjkEpsTol ≤ (pt.point.sub q0.point).dot f.normal) || triAffinelyDependent q1.point q2.point pt.point)
   | _, _, _, _ => none
 
 /-- `compute_silhouette(point, id, opp_pt_id)`; state = (faces, silhouette); `none` = panic / fuel -/
